@@ -23,14 +23,49 @@ var NSList = []string{"h1", "h2", "p", "q", "r"}
 
 // NSSchema is a namespaced universe: the schema plus the namespace of every declaration.
 type NSSchema struct {
-	S  *Schema
-	H  *Helpers
-	NS map[*StructDef]string
+	S    *Schema
+	H    *Helpers
+	NS   map[*StructDef]string
+	List []string // the namespaces in use
 }
 
-func UniverseNS(level int) *NSSchema {
-	s, h := Universe(level)
-	out := &NSSchema{S: s, H: h, NS: map[*StructDef]string{}}
+func UniverseNS(level int) *NSSchema { return universeNS(level, false) }
+
+// UniverseNSFuncs is UniverseNS built from FuncUniverse(level): the functions go to two more namespaces,
+//
+//	f1.  functions whose result type does not depend on a request field
+//	f2.  functions whose result is sized or masked by a request nat field
+//
+// Functions reference h1/h2 helpers in arguments and results and are referenced by nothing.
+func UniverseNSFuncs(level int) *NSSchema { return universeNS(level, true) }
+
+func resultDependsOnRequest(t *Type) bool {
+	if t == nil {
+		return false
+	}
+	if t.Kind == KTuple && t.Size.Kind == NField {
+		return true
+	}
+	for _, a := range t.Args {
+		if a.Kind == NField {
+			return true
+		}
+	}
+	return resultDependsOnRequest(t.Elem) || resultDependsOnRequest(t.Key)
+}
+
+func universeNS(level int, withFuncs bool) *NSSchema {
+	var s *Schema
+	var h *Helpers
+	if withFuncs {
+		s, h, _ = FuncUniverse(level)
+	} else {
+		s, h = Universe(level)
+	}
+	out := &NSSchema{S: s, H: h, NS: map[*StructDef]string{}, List: append([]string{}, NSList...)}
+	if withFuncs {
+		out.List = append(out.List, "f1", "f2")
+	}
 	h1 := map[*StructDef]bool{h.St: true, h.Empty: true, h.Td: true}
 	for _, v := range h.En.Variants {
 		h1[v] = true
@@ -76,6 +111,10 @@ func UniverseNS(level int) *NSSchema {
 	}
 	nsOf := func(d *StructDef) string {
 		switch {
+		case d.IsFunc && resultDependsOnRequest(d.Result):
+			return "f2"
+		case d.IsFunc:
+			return "f1"
 		case h1[d]:
 			return "h1"
 		case h2[d]:
@@ -129,11 +168,17 @@ func UniverseNS(level int) *NSSchema {
 func (n *NSSchema) Files() map[string]string {
 	out := map[string]string{"common.tl": Prelude}
 	var b = map[string]*strings.Builder{}
-	for _, ns := range NSList {
+	for _, ns := range n.List {
 		b[ns] = &strings.Builder{}
 	}
+	inFuncs := map[string]bool{}
 	for _, d := range n.S.Structs {
-		b[n.NS[d]].WriteString(DeclText(d) + "\n")
+		ns := n.NS[d]
+		if d.IsFunc && !inFuncs[ns] {
+			inFuncs[ns] = true
+			b[ns].WriteString("---functions---\n")
+		}
+		b[ns].WriteString(FuncDeclText(d) + "\n")
 	}
 	for ns, sb := range b {
 		out[ns+".tl"] = sb.String()
